@@ -62,7 +62,9 @@ CleanEvents ==
      c \in Senders, d \in Dests, rl \in UserRelays, n \in 1..MaxSeq}
 RuleEvents == {[act |-> "SetRules", c |-> c, rules |-> rs] : c \in RuleChains, rs \in RuleSets}
 ExpireEvents == {[act |-> "Expire", c |-> px[1], x |-> px[2]] : px \in {q \in ExpirePairs : q[2] \notin cs[q[1]].ex}}
-ExportEvents == IF ExportOn THEN {[act |-> "ExportImport", c |-> c] : c \in Chains} ELSE {}
+ExportEvents == IF ExportOn THEN {[act |-> "ExportImport", c |-> c] : c \in Chains}
+                                  \cup {[act |-> "RegisterRelayer", c |-> c, x |-> x] : c \in Chains, x \in Names}   \* also for chains without client
+                ELSE {}
 
 -------------------------------------------------------------------------------
 (* genuine relayer messages *)
